@@ -165,3 +165,15 @@ func (v *VerifC02Session) Errors() int { return int(v.S.errors) }
 // QueueFiller gives the client something to send in the next exchange, so that next() takes it from
 // the queue instead of drawing a re-key announcement at random.
 func (v *VerifC02Session) QueueFiller() { v.S.send <- &com.Packet{ID: 0x10, Device: v.S.ID} }
+
+// VerifC02Pack builds a Multi container addressed to dev from the given packets with the real
+// writeUnpack (the packing function of nextPacket); the packets are consumed.
+func VerifC02Pack(dev device.ID, ps []*com.Packet) (*com.Packet, error) {
+	m := &com.Packet{Device: dev, Flags: com.FlagMulti}
+	for _, p := range ps {
+		if err := writeUnpack(m, p, true, true); err != nil {
+			return nil, err
+		}
+	}
+	return m, nil
+}
